@@ -662,6 +662,60 @@ pub fn execute(sc: &RenderScenario, stats: &mut Stats) -> Outcome {
             out.violations.push(Violation::new("C10", "acceptance-depends-on-history", "a second instance refused the batch the first one accepted".into()));
         }
     }
+    // ---- (f) the engine's global context changes between renders: the long-lived instance,
+    // rendering with the long-lived `Context` objects it has rendered with before, must produce
+    // what a new instance configured with the changed global context produces from new `Context`
+    // objects (nothing derived from the old global context may survive anywhere)
+    if !firsts.is_empty() && out.violations.is_empty() {
+        let mut cfg2 = sc.config.clone();
+        cfg2.global.0.retain(|(k, _)| k != "g_only" && k != "s_any");
+        cfg2.global.0.push(("g_only".to_string(), crate::sval::SVal::str("<g changed & more>")));
+        cfg2.global.0.push(("zz_g2".to_string(), crate::sval::SVal::I64(7)));
+        t.global_context().remove("s_any");
+        t.global_context().insert_value("g_only", tera::Value::from("<g changed & more>"));
+        let mut extra = Context::new();
+        extra.insert_value("zz_g2", tera::Value::from(7i64));
+        t.global_context().extend(extra);
+        ahash::sim::reset(Mode::PerInstance, sc.hash_base ^ 0x6C0B_A1C0_6C0B_A1C0);
+        let mut t3 = new_tera(&cfg2);
+        if let Ok(Ok(())) = catch(|| t3.add_raw_templates(sc.templates.iter().map(|(n, s)| (n.as_str(), s.as_str())))) {
+            let fresh_ctxs: Vec<Context> = sc.contexts.iter().map(|c| c.to_context()).collect();
+            for (ti, ci, _, _) in firsts.iter() {
+                let mut wa = SimWriter::new(WPlan::perfect());
+                let mut wb = SimWriter::new(WPlan::perfect());
+                engine::set_step_limit(engine::steps() + 100_000_000);
+                let ra = catch(|| run_target(&t, &sc.targets[*ti], &ctxs[*ci], &mut wa));
+                let rb = catch(|| run_target(&t3, &sc.targets[*ti], &fresh_ctxs[*ci], &mut wb));
+                engine::clear_step_limit();
+                let _ = engine::take_end_state_violation();
+                match (ra, rb) {
+                    (Ok(a), Ok(b)) => {
+                        stats.inc("global_context_change_renders");
+                        if rtag(&a) != rtag(&b) || wa.accepted != wb.accepted {
+                            out.violations.push(Violation::new(
+                                prop,
+                                "stale-global-context",
+                                format!(
+                                    "target {} ctx {}: after global_context() changed, the long-lived engine and Context give {} {:?}; a new engine with that global context and a new Context give {} {:?}",
+                                    ti,
+                                    ci,
+                                    rtag(&a),
+                                    engine::trunc(&String::from_utf8_lossy(&wa.accepted)),
+                                    rtag(&b),
+                                    engine::trunc(&String::from_utf8_lossy(&wb.accepted))
+                                ),
+                            ));
+                            break;
+                        }
+                    }
+                    (Err(p), _) | (_, Err(p)) => {
+                        out.violations.push(Violation::new("C07", "panic-in-render", format!("after global context change, target {} ctx {}: {}", ti, ci, p)));
+                        break;
+                    }
+                }
+            }
+        }
+    }
     stats.sample(4, || {
         serde_json::json!({
             "templates": sc.templates.iter().take(3).map(|(n, s)| serde_json::json!({"name": n, "source": engine::trunc(s)})).collect::<Vec<_>>(),
